@@ -18,7 +18,7 @@ ASSUMPTIONS = [
     "back-off: integer factory parameters as in the signature; max_exponent capped at 20000 for cost",
 ]
 EVAL_COUNTER = "evaluations"
-REQUIRED = ["backoff_evals", "next_evals", "overdue_evals", "delay_until_ahead", "now_before_base", "now_on_grid", "with_scheduled_time", "stored_bucket_probes", "timezone_offset_cases", "wire_conversions", "overdue_evals_with_a_ttl_of_zero_or_less"]
+REQUIRED = ["backoff_evals", "next_evals", "overdue_evals", "delay_until_ahead", "now_before_base", "now_on_grid", "with_scheduled_time", "stored_bucket_probes", "timezone_offset_cases", "wire_conversions", "overdue_evals_with_a_ttl_of_zero_or_less", "expiry_probes_at_a_waiting_consumer"]
 
 US = timedelta(microseconds=1)
 
@@ -34,6 +34,8 @@ def gen_cases(tier, seed):
     for i in range(3 if tier == "quick" else 12):
         cases.append({"kind": "bucket_store", "seed": seed * 1000 + 300 + i})
     cases.append({"kind": "next_grid"})
+    for i in range(1 if tier == "quick" else 4):
+        cases.append({"kind": "idle_consumer", "seed": seed * 1000 + 800 + i})
     # what the brokers make of a scheduled time: the relative expiration RabbitMQ is given, the score Redis stores
     for i in range(2 if tier == "quick" else 12):
         cases.append({"kind": "wire", "n": 400 if tier == "quick" else 3000, "seed": seed * 1000 + 600 + i})
@@ -303,6 +305,54 @@ def check_job_overdue(ts, ttl, now, out, stats, fps):
         out.append(_viol("overdue_predicate", "Job", f"Job: ts={ts} ttl={ttl} now={now}: is_overdue={got}, expected {expected}"))
 
 
+async def idle_consumer_scenario(loop, case, out, stats, fps):
+    import asyncio
+    """The expiry rule as a consumer applies it: a message whose timestamp + ttl is already over when it reaches a queue
+    whose consumer has been waiting for a while (its own idea of "now" may be old) is not handed out; one with time left is."""
+    from repid.message import MessageCategory
+    from rv.rigs import Rig, key_of
+
+    rnd = random.Random(case["seed"])
+    for kind in ("mem", "redis", "rabbit"):
+        for waited in (0.35, 0.8, 1.7):
+            for over in (0.05, 0.3, -0.5):  # expired that long ago / (negative) that much time left
+                rig = Rig(kind, loop, latency=None, seed=case["seed"])
+                try:
+                    conn = rig.make_connection("p1")
+                    await conn.connect()
+                    mb = conn.message_broker
+                    await mb.queue_declare("q")
+                    P = mb.PARAMETERS_CLASS
+                    cons = mb.get_consumer("q", None, None, MessageCategory.NORMAL)
+                    await cons.start()
+                    waiter = loop.create_task(cons.consume())
+                    await asyncio.sleep(waited)
+                    ttl = timedelta(seconds=rnd.choice([2, 90, 3600]))
+                    ts = datetime.now() - ttl - timedelta(seconds=over)
+                    await mb.enqueue(key_of(conn, "m1", "t", "q"), "p", P(timestamp=ts, ttl=ttl))
+                    got = None
+                    try:
+                        key, _pl, _pr = await asyncio.wait_for(waiter, 3.0 if kind == "redis" else 1.5)
+                        got = key.id_
+                        await mb.ack(key)
+                    except asyncio.TimeoutError:
+                        pass
+                    await cons.finish()
+                    stats["evaluations"] += 1
+                    stats["overdue_evals"] += 1
+                    stats["expiry_probes_at_a_waiting_consumer"] += 1
+                    fps.add(f"idle_consumer/{kind}/{waited}/{'expired' if over > 0 else 'alive'}")
+                    if over > 0 and got is not None:
+                        out.append(_viol("overdue_predicate", f"consumer/{kind}/handed-out-after-expiry", f"a message with timestamp + ttl {over}s in the past was enqueued while the consumer had been waiting for {waited}s: "
+                                                                                                       f"it was handed out (now > timestamp + ttl held when it arrived)"))
+                    if over < 0 and got is None:
+                        out.append(_viol("overdue_predicate", f"consumer/{kind}/withheld-before-expiry", f"a message with {-over}s left to live, enqueued while the consumer had been waiting for {waited}s, was not handed out; "
+                                                                                                     f"state {rig.snapshot().get('m1')}"))
+                    await conn.disconnect()
+                finally:
+                    rig.close()
+
+
 async def bucket_store_scenario(loop, case, out, stats, fps):
     """Buckets in a store that expires keys itself (Redis): what the broker still serves is what `now > timestamp + ttl`
     says, for buckets stored long after their timestamp as well (whole-second server clock: 1 s tolerance)."""
@@ -385,6 +435,12 @@ def run_case(case):
             ns = sorted({1, 2, 3, mexp - 1 if mexp > 1 else 1, mexp, mexp + 1, 10**6, 2**31, 10**9}
                         | {rnd.randint(1, 100) for _ in range(15)} | {rnd.randint(1, 10**6) for _ in range(10)})
             check_backoff((mn, mx, mult, mexp), ns, out, stats, fps)
+    elif kind == "idle_consumer":
+        from rv.sim import loop as vl
+
+        res = vl.run(lambda loop: idle_consumer_scenario(loop, case, out, stats, fps), max_steps=4_000_000, seed=case["seed"])
+        if res.exc is not None:
+            out.append(_viol("next_raises", "idle_consumer", f"{type(res.exc).__name__}: {res.exc}"))
     elif kind == "bucket_store":
         from rv.sim import loop as vl
 
